@@ -287,6 +287,91 @@ func udpPeerGone(w *vt.Writer, r *rand.Rand, pool []*entities.InfoElement) int {
 	return evals
 }
 
+// udpLateCollector: the collector's port is closed when the exporter starts (the first sends fail with "connection
+// refused"), then the collector comes up; from then on everything written arrives whole, refreshes included, also
+// while the refresher and the application write at the same time (200 templates make the refresh burst long).
+func udpLateCollector(w *vt.Writer, r *rand.Rand, pool []*entities.InfoElement) int {
+	probe, err := net.ListenUDP("udp", &net.UDPAddr{IP: net.IPv4(127, 0, 0, 1)})
+	if err != nil {
+		panic(err)
+	}
+	addr := probe.LocalAddr().(*net.UDPAddr)
+	probe.Close()
+	dom := r.Uint32()
+	ep, err := exporter.InitExportingProcess(exporter.ExporterInput{CollectorAddress: addr.String(), CollectorProtocol: "udp", ObservationDomainID: dom, TempRefTimeout: 1})
+	if err != nil {
+		panic(err)
+	}
+	start := time.Now()
+	w.Reset(vt.Ev{"proto": "udp", "dom": vt.Limbs(dom)})
+	w.Emit(vt.Ev{"e": "PeerClose", "ms": ms()}) // nobody is listening yet
+	evals := 0
+	send := func(d sets.Desc) {
+		evals++
+		set := d.Build()
+		w.Emit(vt.Ev{"e": "SendBegin", "set": d.JSON(), "ms": ms()})
+		m0 := ms()
+		n, err := ep.SendSet(set)
+		w.Emit(vt.Ev{"e": "SendEnd", "ret": n, "err": err != nil, "ms0": m0, "ms": ms()})
+	}
+	tmpls := map[int][]*entities.InfoElement{}
+	for time.Since(start) < 250*time.Millisecond { // sends against the closed port: some fail
+		tid := 256 + len(tmpls)
+		tmpls[tid] = sets.RandTemplate(r, pool, 2)
+		send(sets.Tmpl(tid, tmpls[tid]))
+		send(sets.Data(r, tid, tmpls[tid], 1, 20, 400))
+		time.Sleep(4 * time.Millisecond)
+	}
+	peer, err := net.ListenUDP("udp", addr)
+	if err != nil { // somebody else got the port meanwhile: nothing to report
+		ep.CloseConnToCollector()
+		w.Emit(vt.Ev{"e": "End", "leaked": exporterGoroutines(), "ms": ms()})
+		return evals
+	}
+	peer.SetReadBuffer(16 << 20)
+	peerDone := make(chan struct{})
+	marker := []byte("VERIF-MARK")
+	go func() {
+		defer close(peerDone)
+		buf := make([]byte, 65536)
+		for {
+			peer.SetReadDeadline(time.Now().Add(8 * time.Second))
+			n, _, err := peer.ReadFromUDP(buf)
+			if err != nil || string(buf[:n]) == string(marker) {
+				return
+			}
+			w.Emit(vt.Ev{"e": "Recv", "bytes": vt.B(buf[:n]), "sec": int(time.Now().Unix())})
+		}
+	}()
+	for len(tmpls) < 200 { // a long refresh burst
+		tid := 256 + len(tmpls)
+		tmpls[tid] = sets.RandTemplate(r, pool, 2)
+		send(sets.Tmpl(tid, tmpls[tid]))
+	}
+	for time.Since(start) < 2400*time.Millisecond { // two refresh ticks overlap these sends
+		tid := 256 + r.Intn(len(tmpls))
+		send(sets.Data(r, tid, tmpls[tid], 1+r.Intn(3), 20, 2000))
+		time.Sleep(time.Duration(r.Intn(1500)) * time.Microsecond)
+	}
+	var wg sync.WaitGroup
+	wg.Add(1)
+	go func() {
+		defer wg.Done()
+		w.Emit(vt.Ev{"e": "CloseBegin", "c": 0, "ms": ms()})
+		ep.CloseConnToCollector()
+		w.Emit(vt.Ev{"e": "CloseEnd", "c": 0, "ms": ms()})
+	}()
+	waitOrHang(w, &wg, "CloseConnToCollector (udp, late collector)")
+	mk, _ := net.DialUDP("udp", nil, addr)
+	mk.Write(marker)
+	mk.Close()
+	<-peerDone
+	peer.Close()
+	time.Sleep(20 * time.Millisecond)
+	w.Emit(vt.Ev{"e": "End", "leaked": exporterGoroutines(), "ms": ms()})
+	return evals
+}
+
 // tcpBackpressure: the collector is alive but does not read for a while: application writes block on
 // a full socket while connection checks keep running. Nothing may fail and the stream must stay intact.
 // closeWhileBlocked: instead of letting the peer read, another goroutine calls Close while the SendSet is blocked:
@@ -533,6 +618,7 @@ func main() {
 	}
 	for i := 0; i < (ntcp+1)/2; i++ {
 		evals += udpPeerGone(w, r, pool)
+		evals += udpLateCollector(w, r, pool)
 	}
 	w.Close()
 	vt.PrintSummary(vt.Summary{Events: w.Events(), Traces: w.Traces(), Evaluations: evals, Distinct: len(dist) + ntcp})
